@@ -10,6 +10,16 @@ CLAIMED = {
    note="Trusted: Coq kernel; hand-written model tied by correspondence (harness/src/dates.rs, driver/props/c08.py, coqc vm_compute printing); chrono is modelled, not verified (exhaustively compared 1970-2200). No axioms.",
    tech="Coq proof (lia + one-era vm_compute sweep lifted by periodicity) + exhaustive/seeded model-vs-code correspondence",
    ref="DESIGN.md §4 C08"),
+ "C04": dict(
+   text="Coq theorems (Props/C04.v, axiom-free) about the Gallina model of DateRoll::roll and the eight roll_* methods, quantified over ARBITRARY business-day and settlement predicates (hence every week mask, holiday set, union and settlement association), every date, modifier and flag: following/previous return the first eligible date in their direction (and find it whenever one lies within the search bound), modified variants reverse on a month change, Act is the identity, eligible dates are fixed points, rolling is idempotent. Model tied to dateroll.rs/calendar.rs by a seeded differential run on random and built-in calendars on every run.",
+   note="Trusted: Coq kernel; model hand-written and tied by correspondence (harness/src/cal.rs, driver/calrun.py, coqc vm_compute); chrono modelled (C08). Unbounded `while` loops are fuelled in the model: exhaustion = abort; theorems hold for every fuel. No axioms.",
+   tech="Coq proof (induction over fuelled searches, arbitrary predicates) + seeded model-vs-code correspondence",
+   ref="DESIGN.md §4 C04"),
+ "C05": dict(
+   text="Coq theorems (Props/C05.v, axiom-free), for arbitrary business-day/settlement predicates: add_bus_days lands on a business day with exactly |n| business days counted (result counted, start not), adding -n returns to the start, non-business starts are rejected, the settled variant is the unsettled one moved onward in the direction of n, lag composes as coded and counts correctly from non-business starts, bus_date_range is exactly the filtered calendar range, add_days is shift-then-roll. Model tied to dateroll.rs by a seeded differential run incl. hashed sweeps of the whole i8 range.",
+   note="Trusted: as C04. i8 day counts are modelled in Z (the API type bounds them); no axioms.",
+   tech="Coq proof (induction on step counts, counting lemmas) + seeded model-vs-code correspondence over the full i8 range",
+   ref="DESIGN.md §4 C05"),
 }
 
 NOT_YET = "check not built yet in this round; planned at proof level (see DESIGN.md §4)"
